@@ -10,7 +10,7 @@ os.chdir(VERIF)
 WRAPPER_PROPS = ('C01', 'C02', 'C05', 'C06', 'C07', 'C08', 'C15', 'C16', 'C18')
 
 
-BOUNDED = {'C19': 'checks.c19_validate', 'C09': 'checks.c09_canon', 'C10': 'checks.c10_discr', 'C11': 'checks.c11_ignore', 'C17': 'checks.c17_stable', 'C12': 'checks.c12_round', 'C03': 'checks.c03_dict', 'C04': 'checks.c04_persist', 'C13': 'checks.c13_crash'}
+BOUNDED = {'C19': 'checks.c19_validate', 'C09': 'checks.c09_canon', 'C10': 'checks.c10_discr', 'C11': 'checks.c11_ignore', 'C17': 'checks.c17_stable', 'C12': 'checks.c12_round', 'C03': 'checks.c03_dict', 'C04': 'checks.c04_persist', 'C13': 'checks.c13_crash', 'C20': 'checks.c20_pickle'}
 
 
 def main(argv):
